@@ -795,9 +795,14 @@ where
             } else {
                 self.dispatch_job(job);
             }
-            return Ok(());
+            if !self.curr_jobs.is_empty() {
+                return Ok(());
+            }
+            // the dispatch failed (the worker is on its way out) and the job was parked for the
+            // replacement: the backlog is still subject to the discard limit below
+        } else {
+            self.message_queue.push_back(job);
         }
-        self.message_queue.push_back(job);
 
         if let Some((limit, DiscardMode::Oldest)) = self.discard_settings.get_limit_and_mode() {
             // load-shed the OLDEST jobs
